@@ -576,6 +576,11 @@ class Monitor:
         if self.ext.get("forced") and not market.is_running and isinstance(exc, AssertionError):
             return  # a round forced on a stopped market was refused: that is the guard working
         import traceback
+        ses = self.sim.current_session if self.sim is not None else None
+        if (self.driver == "A" and ses is not None and not market.is_running and isinstance(exc, AssertionError)
+                and not self.sessions_cfg[ses.session_id].get("withOrderExecution", True)):
+            self.viol("C09", "matching_attempted_in_no_execution_session",
+                      {"market": mm.name, "session": ses.session_id, "exc": repr(exc)})
         self.viol("C03", "round_raised", {"market": mm.name, "exc": repr(exc),
                                          "tb": traceback.format_exc(limit=6)[-900:]})
 
